@@ -14,6 +14,9 @@ generated for some attempt of the handler, or a foreign one.
   still in flight, not a stale one, not a foreign one) and the RFC 9207 check passed.
 * `concurrent_other_state_refused`: answered with any other state value, attempt `k` sends no token
   request and installs nothing; `concurrent_failed_attempt_keeps_token_source`.
+* `concurrent_served_token_installed_by_a_finished_attempt`, `concurrent_served_token_justified`: what the
+  handler serves after any schedule was installed by an attempt answered with ITS OWN state, passing RFC 9207
+  and a successful token round trip.
 * `sequential_is_concurrent`: `Handler.authorize` is `start` immediately followed by `finish`.
 * `monitor_accepts_schedule` (bridge): on the observation of every result of every schedule of
   well-formed attempts (in the form a record carries them) the C15 monitor reports no clause, whatever
@@ -146,6 +149,60 @@ theorem concurrent_failed_attempt_keeps_token_source (c : CHandler) (k : Nat) (R
     simp only [hl, Option.some.injEq, Prod.mk.injEq, true_and] at h ⊢
     rw [h]
 
+/-- **concurrent_served_token_installed_by_a_finished_attempt**: after ANY schedule the handler serves the
+token source it served before, or the one installed by the `finish` of an attempt `k` of the schedule whose
+own run installed it. -/
+theorem concurrent_served_token_installed_by_a_finished_attempt : ∀ (ss : List Step) (c : CHandler),
+    (c.run ss).1.served = c.served ∨
+    ∃ k R, (k, R) ∈ (c.run ss).2 ∧ (c.run ss).1.served = .round k ∧ R.installed = true
+  | [], _ => .inl rfl
+  | s :: ss, c => by
+    simp only [CHandler.run]
+    rcases concurrent_served_token_installed_by_a_finished_attempt ss (c.step s).1 with h1 | ⟨k, R, hm, h1, h2⟩
+    · rw [h1]
+      cases s with
+      | start a => exact .inl rfl
+      | finish k =>
+        simp only [CHandler.step]
+        cases hl : c.flight.lookup k with
+        | none => exact .inl rfl
+        | some a =>
+          simp only []
+          cases hi : (attemptResult c.cfg k a).installed with
+          | false => exact .inl (by simp)
+          | true => exact .inr ⟨k, attemptResult c.cfg k a, by simp, by simp, hi⟩
+    · refine .inr ⟨k, R, ?_, h1, h2⟩
+      cases h : (c.step s).2 with
+      | none => exact hm
+      | some x => exact List.mem_cons_of_mem _ hm
+
+/-- **concurrent_served_token_justified**: the token source served after ANY schedule of overlapping
+attempts, if it is not the one served before, was installed by an attempt `k` that was answered with the
+state generated FOR ATTEMPT `k`, passed the RFC 9207 check against the metadata it used, and got it from a
+successful token round trip at that metadata's token endpoint — no failed check of any attempt, and no
+answer meant for another attempt, ever changes what the transport presents. -/
+theorem concurrent_served_token_justified (c : CHandler) (ss : List Step) (n : Nat)
+    (hs : (c.run ss).1.served = .round n) (hne : c.served ≠ .round n) :
+    ∃ a R, (n, R) ∈ (c.run ss).2 ∧ ((n, a) ∈ c.flight ∨ Step.start a ∈ ss) ∧ R = attemptResult c.cfg n a ∧
+      (R.outcome = .ok ∨ R.outcome = .post) ∧
+      ∃ d iss cred, R.asm = some d ∧ Event.token d.tokenEndpoint cred ∈ R.log ∧
+        a.fetchV d.authorizationEndpoint = .result (.gen n) iss ∧ issCheck iss d.issuer d.issParamSupported = true := by
+  rcases concurrent_served_token_installed_by_a_finished_attempt ss c with h1 | ⟨k, R, hm, h1, h2⟩
+  · rw [h1] at hs; exact absurd hs hne
+  · rw [h1] at hs
+    injection hs with hs
+    subst hs
+    obtain ⟨a, hfl, hr⟩ := concurrent_results_are_attempt_results ss c (k, R) hm
+    simp only at hfl hr
+    subst hr
+    obtain ⟨ho, d, _, hd, _, _, _, _, cred, _, ht, _⟩ := (failed_check_installs_nothing _ _ _).1 h2
+    obtain ⟨d', hd', _, iss, hf, hi⟩ := attempt_exchange_requires_own_state c.cfg k a _ cred ht
+    have : d' = d := by
+      have h := hd'.symm.trans hd
+      exact Option.some.inj h
+    subst this
+    exact ⟨a, _, hm, hfl, rfl, ho, d', iss, cred, hd', ht, hf, hi⟩
+
 /-- A round of the sequential model as an attempt: a matching state is the attempt's own. -/
 def Round.attempt (r : Round) (k : Nat) : Attempt :=
   { serverUrl := r.serverUrl, inp := r.inp, world := r.world,
@@ -157,8 +214,8 @@ theorem Round.attempt_round (r : Round) (k : Nat) : (r.attempt k).round k = r :=
   cases r with
   | mk su inp w =>
     cases w with
-    | mk p a rg t f =>
-      simp only [Round.attempt, Attempt.round, Round.mk.injEq, World.mk.injEq, true_and]
+    | mk p a rg t f nf =>
+      simp only [Round.attempt, Attempt.round, Round.mk.injEq, World.mk.injEq, true_and, and_true]
       funext u
       cases hf : f u with
       | err => simp [FetchV.answer]
@@ -192,7 +249,8 @@ def TAttempt.attempt (t : TAttempt) : Attempt :=
 /-- The round the monitor is given for attempt `k`. -/
 def TAttempt.mcase (hc : HConfig) (k : Nat) (t : TAttempt) : MCase :=
   { cfg := hc.at t.serverUrl, inp := t.inp,
-    tabs := { prm := t.tabs.prm, asm := t.tabs.asm, tok := t.tabs.tok, reg := t.tabs.reg, fetch := t.fetchV.answer k } }
+    tabs := { prm := t.tabs.prm, asm := t.tabs.asm, tok := t.tabs.tok, reg := t.tabs.reg, fetch := t.fetchV.answer k,
+              ntsFails := t.tabs.ntsFails } }
 
 theorem attemptResult_mcase (hc : HConfig) (k : Nat) (t : TAttempt) :
     attemptResult hc k t.attempt = (t.mcase hc k).result := rfl
